@@ -353,6 +353,22 @@ pub fn run(prop: &'static str, tier: Tier) -> i32 {
     let per_plan = budget / plans.len() as u32;
     let mut per_cfg = vec![];
     let mut outcomes_total = 0;
+    // depth bonus per property (the client world is cheap to rebuild)
+    let delta: usize = match (prop, tier) {
+        ("C02", _) => 3,
+        ("C07", Tier::Quick) => 3,
+        ("C07", Tier::Thorough) => 2,
+        ("C10", _) => 1,
+        ("C11", Tier::Quick) => 3,
+        ("C11", Tier::Thorough) => 2,
+        _ => 0,
+    };
+    let mut plans = plans;
+    for p in plans.iter_mut() {
+        for d in p.depth_by_devs.iter_mut() {
+            *d += delta;
+        }
+    }
     for p in plans.iter() {
         let params = Params {
             depth_by_devs: p.depth_by_devs.clone(),
